@@ -232,6 +232,17 @@ class Repo:
         m = self.modules.get(modname)
         if m is None:
             return None
+        if ".<" in qual:
+            # nested function: 'outer.<inner>' or 'Class.method.<inner>'
+            outer_q, _, inner = qual.partition(".<")
+            inner = inner.rstrip(">")
+            found = self.find_function(modname + ":" + outer_q)
+            if found is None:
+                return None
+            for n in ast.walk(found[2]):
+                if isinstance(n, ast.FunctionDef) and n.name == inner and n is not found[2]:
+                    return (found[0], found[1], n)
+            return None
         if "." in qual:
             cn, mn = qual.split(".", 1)
             c = m.classes.get(cn)
